@@ -724,8 +724,8 @@ func TestVerifLeaseReplay(t *testing.T) {
 		t.Fatal(err)
 	}
 	defer admin.Close()
-	verifGateFunc = vlG.gate
-	defer func() { verifGateFunc = nil }()
+	VerifGate = vlG.gate
+	defer func() { VerifGate = nil }()
 	n, aborted := 0, 0
 	for sc.Scan() {
 		var s vlSched
